@@ -255,3 +255,38 @@ def witness_not_covered(rnd, b, t, tries=300):
         if match(b, pk) and not match(t, pk):
             return pk
     return None
+
+
+# ------------------------------------------------------------------ observation of an implementation ACE
+def _ivs(ports):
+    ports = list(ports)
+    out = []
+    if ports:
+        lo = hi = ports[0]
+        for x in ports[1:]:
+            if x == hi + 1:
+                hi = x
+            elif x == hi:
+                pass
+            else:
+                out.append([lo, hi])
+                lo = hi = x
+        out.append([lo, hi])
+    return [len(ports), out]
+
+
+def obs_addr(a):
+    from ipaddress import IPv4Address
+    if a.type == "addrgroup":
+        return ["addrgroup", a.addrgroup, len(a.items)]
+    pre, wm = a.wildcard.split()
+    net = a.ipnet
+    return [a.type, int(IPv4Address(pre)), int(IPv4Address(wm)),
+            [[int(net.network_address), net.prefixlen]] if net is not None else []]
+
+
+def obs_ace(o):
+    """same shape as RunAce.v_ace"""
+    return [o.action == "permit", o.protocol.number, obs_addr(o.srcaddr), obs_addr(o.dstaddr),
+            list(o.srcport.items), _ivs(o.srcport.ports), list(o.dstport.items), _ivs(o.dstport.ports),
+            list(o.option.flags), list(o.option.logs)]
